@@ -97,6 +97,15 @@ func TestVerifC01Agent(t *testing.T) {
 				fp.addRequest(p.id, "u@example.com", verifRawRequest(method, p.tok, p.respSize, p.lat, http.Header{"X-Verif-Token": {p.tok}}, body), nil)
 				idTok[p.id] = p.tok
 			}
+			// the first upload of some responses is answered 500 after it was read to the end (a balancer in front of the proxy): the
+			// agent may retry (small responses) or give up (larger than its replay buffer), but what is acknowledged is the response
+			upFaults := map[string][]int{}
+			for i, p := range plans {
+				if i%6 == 3 && p.respSize <= 70000 {
+					fp.upScript[p.id] = []int{verif500}
+					upFaults[p.id] = []int{verif500}
+				}
+			}
 			ctx, cancel := context.WithCancel(context.Background())
 			fp.afterList = cancel
 			client := &http.Client{Transport: fp}
@@ -109,7 +118,17 @@ func TestVerifC01Agent(t *testing.T) {
 			fp.quiesce(300*time.Millisecond, 30*time.Second, func() bool {
 				fp.mu.Lock()
 				defer fp.mu.Unlock()
-				return len(fp.uploads) >= n
+				// every response whose upload was not made to fail has arrived (the others may have been given up)
+				got := map[string]bool{}
+				for _, u := range fp.uploads {
+					got[u.ID] = true
+				}
+				for _, p := range plans {
+					if upFaults[p.id] == nil && !got[p.id] {
+						return false
+					}
+				}
+				return true
 			})
 			fp.mu.Lock()
 			ups := append([]verifUpload(nil), fp.uploads...)
@@ -128,7 +147,7 @@ func TestVerifC01Agent(t *testing.T) {
 			for i := range ups {
 				ups[i].Header = map[string][]string{"X-Verif-Resp": ups[i].Header["X-Verif-Resp"]}
 			}
-			out.emit(map[string]interface{}{"kind": "round", "index": ri, "requests": n, "lists": lists, "id_tok": idTok, "uploads": ups, "invocations": invs})
+			out.emit(map[string]interface{}{"kind": "round", "index": ri, "requests": n, "lists": lists, "id_tok": idTok, "uploads": ups, "invocations": invs, "upload_faults": upFaults})
 		}(ri)
 	}
 	wg.Wait()
